@@ -532,9 +532,66 @@ def trait_added_filtered_case(case):
     return dict(reproduced=bool(violated), violated=violated[:8])
 
 
+def maintainer_failure_case(case):
+    """C12 / C08: a dependency is changed to an object on which the NESTED part of the expression cannot be hooked (no such
+    trait): the change itself has happened, so the handler observing the link is told and a cached property depending on it is
+    not stale -- the maintainer's failure comes after the handler, never instead of it."""
+    from traits.api import HasTraits, Instance, Int, List, Property, cached_property
+    violated = []
+
+    class Leaf(HasTraits):
+        value = Int()
+
+    class Blank(HasTraits):
+        pass
+
+    class Owner(HasTraits):
+        child = Instance(HasTraits)
+        parts = List(Instance(HasTraits))
+        total = Property(Int, observe="child.value")
+        weight = Property(Int, observe="parts.items.value")
+
+        @cached_property
+        def _get_total(self):
+            return self.child.value if isinstance(self.child, Leaf) else -1
+
+        @cached_property
+        def _get_weight(self):
+            return sum(p.value if isinstance(p, Leaf) else 100 for p in self.parts)
+    o = Owner(child=Leaf(value=3), parts=[Leaf(value=1), Leaf(value=2)])
+    tot, wei = [], []
+    o.observe(tot.append, "total")
+    o.observe(wei.append, "weight")
+    if (o.total, o.weight) != (3, 3):
+        violated.append("initial values %r" % ((o.total, o.weight),))
+    try:
+        o.child = Blank()
+        raised = None
+    except Exception as e:
+        raised = e
+    if not isinstance(o.child, Blank):
+        violated.append("the assignment did not happen")
+    else:
+        if o.total != -1:
+            violated.append("child replaced by an object without 'value' (assignment raised %r): total reads %r, the getter computes -1" % (raised, o.total))
+        if not tot:
+            violated.append("child replaced (assignment raised %r): no change of 'total' was announced" % (raised,))
+    try:
+        o.parts.append(Blank())
+        raised = None
+    except Exception as e:
+        raised = e
+    if len(o.parts) == 3:
+        if o.weight != 103:
+            violated.append("an item without 'value' appended (raised %r): weight reads %r, the getter computes 103" % (raised, o.weight))
+        if not wei:
+            violated.append("an item without 'value' appended (raised %r): no change of 'weight' was announced" % (raised,))
+    return dict(reproduced=bool(violated), violated=violated[:8])
+
+
 def main():
     case = json.loads(sys.stdin.read())
-    out = {"atomic": atomic_case, "reachability": reachability_case, "legacy": legacy_case, "falsy_root": falsy_root_case, "equal_targets": equal_targets_case, "legacy_noop_remove": legacy_noop_remove_case, "trait_added_filtered": trait_added_filtered_case}[case["family"]](case)
+    out = {"atomic": atomic_case, "reachability": reachability_case, "legacy": legacy_case, "falsy_root": falsy_root_case, "equal_targets": equal_targets_case, "legacy_noop_remove": legacy_noop_remove_case, "trait_added_filtered": trait_added_filtered_case, "maintainer_failure": maintainer_failure_case}[case["family"]](case)
     print(json.dumps(out, default=repr))
 
 
